@@ -533,7 +533,8 @@ def _abstract_ac(path_qs, headers):
     for sfx, g in groups.items():
         if not g['res']:
             # a resourceless group: 1.36, must carry a trait or aggregate filter and take part in same_subtree
-            _need(v >= 36 and sfx != '' and (g['required'] or g['member_of']), 'group without resources')
+            _need(v >= 36 and sfx != '' and (g['required'] or g['member_of'] or g['forbidden'] or g['forbidden_aggs']
+                                             or g['in_tree']), 'group without resources')
     _need(groups, 'no groups')
     if 'group_policy' in by:
         _need(v >= 25 and len(by['group_policy']) == 1 and by['group_policy'][0] in ('none', 'isolate'))
@@ -554,7 +555,6 @@ def _abstract_ac(path_qs, headers):
     for sfx, g in groups.items():
         if not g['res']:
             _need(any(sfx in ss for ss in q['same_subtree']), 'resourceless group outside same_subtree')
-            _need(g['in_tree'] == '' or g['required'], 'resourceless group with only in_tree')
     if 'limit' in by:
         _need(v >= 16 and len(by['limit']) == 1 and by['limit'][0].isdigit() and by['limit'][0].isascii()
               and 1 <= int(by['limit'][0]) <= MAXINT)
